@@ -152,6 +152,14 @@ CtxBad(X) ==
             /\ [inv |-> v.inv, s |-> ms[1].s, p |-> ms[1].p] \in X.ctxPos)}}
 C07_ContextNames(X) == CtxBad(X) = {}
 
+\* the function in the context is the function of the named block: none ("")
+\* for a block outside every function, also when it follows a function's block
+CtxFnBad(X) ==
+  {[inv |-> v.inv, reg |-> v.reg, u |-> v.u, got |-> v.fn, want |-> FnOfBlock(BlockByU(X.t.pre, v.u))] :
+      v \in {X.t.invs[k] : k \in {i \in DOMAIN X.t.invs :
+                 X.t.invs[i].fn # FnOfBlock(BlockByU(X.t.pre, X.t.invs[i].u))}}}
+C07_ContextFunction(X) == CtxFnBad(X) = {}
+
 \* KF-C07-1: an AllBlocksScope / AllFunctionsScope designates a zero-sized code block; apply() crashes on the
 \* first such block in address order (ValueError from the decoder when one of
 \* its modifications needs the disassembly, else AssertionError from insert()),
@@ -176,7 +184,8 @@ C07Clauses(X) ==
         <<"C07_Invocations", done, C07_Invocations(X)>>,
         <<"C07_Placement", done, C07_Placement(X)>>,
         <<"C07_Order", done, C07_Order(X)>>,
-        <<"C07_ContextNames", done, C07_ContextNames(X)>> >>
+        <<"C07_ContextNames", done, C07_ContextNames(X)>>,
+        <<"C07_ContextFunction", done, C07_ContextFunction(X)>> >>
 
 C07Diff(name, X) ==
   CASE name = "C07_Completes" -> <<X.t.exc, X.t.stage>>
@@ -186,6 +195,7 @@ C07Diff(name, X) ==
                                   markers |-> Len(X.t.markers), invs |-> Len(X.t.invs)]
     [] name = "C07_Order" -> OrderBad(X)
     [] name = "C07_ContextNames" -> CtxBad(X)
+    [] name = "C07_ContextFunction" -> CtxFnBad(X)
     [] OTHER -> <<>>
 
 C07Verdict(t) ==
